@@ -798,6 +798,13 @@ func runSys(c *sysCase) (vs []vkit.Violation, classes []string, infra error) {
 		if len(c.Faults) > 0 {
 			p = "C06"
 		}
+		for _, w := range why {
+			if strings.Contains(w, "which its generated configuration does not list") {
+				// the shard's Prometheus does not get a target that a single Prometheus would scrape
+				add("C02/sys/assigned-target-missing-from-generated-configuration", "after %d coordinator cycles: %s", cycles, w)
+				break
+			}
+		}
 		add(p+"/sys/not-converged", "after %d coordinator cycles (last fault at cycle %d) the system is not in the converged state: %s\ncoordinator log tail:\n%s", cycles, lastFault, strings.Join(why, "; "), tail(filepath.Join(dir, "coordinator.log")))
 		return vs, classes, nil
 	}
